@@ -50,8 +50,18 @@ def run(ctx: C.Ctx):
 
 
 def replay(data):
+    """./check replay <file>: each unit recognises its own recorded cases (Led/RGBLed cases are lists,
+    Servo/DCMotor cases are {"calls": [...], "json": {...}})"""
+    case = data.get("case")
+    if isinstance(case, dict):
+        units = ["C19_servo", "C19_motor"]
+    elif isinstance(case, list):
+        units = ["C19_led"]
+    else:
+        print("nothing to replay: the file records a broken proof / correspondence without a case")
+        return 0
     rc = 0
-    for u in UNITS:
+    for u in units:
         rc = max(rc, MODS[u].replay_unit(data) or 0)
     if rc == 0:
         print("not reproduced on the current tree")
